@@ -21,7 +21,7 @@ RULE = (
     'time among the pooled tasks that are finished-but-incomplete or live), in any states the run has reached (unspawned, waiting, '
     'queued, held, live, finished, failed), with --flow unset, =new, =1 or '
     '=none; a hold or hold point precedes the trigger in some runs. Oracles: '
-    '(once) after a trigger no member is submitted more than once in the '
+    '(one job) no job ID of a member is submitted twice; (once) after a trigger no member is submitted more than once in the '
     'triggered flows; (left to finish) a group-start member with a live job '
     'at the trigger is not resubmitted while that job is live; (start) a '
     'group-start member without a live job is submitted within 3 main-loop '
@@ -385,6 +385,20 @@ class TriggerWatch(Monitor):
             return
         tr.launches.setdefault(m, []).append((now, flows, nn))
         tr.start_pending.pop(m, None)
+        # one job per submit number
+        if (pstr, name, nn) in [tuple(k) for k in res.world.dup_launches]:
+            mf_ = tr.member_flows.get(m)
+            res.violate('two_jobs_with_one_submit_number_after_trigger', {
+                'member': prog.iid(*m), 'job': nn, 't_trigger': tr.t,
+                't': now, 'flow': tr.flow,
+                'member_flows_at_trigger': sorted(mf_) if mf_ else None,
+                'predicates': ['member_pooled_in_other_flow_at_trigger']
+                if mf_ and tr.flow_nums is not None and not (
+                    mf_ <= tr.flow_nums) else (
+                    ['rerun_after_history_erased_reuses_submit_number']
+                    if any(t0_ < tr.t - 1e-9 and k_[0] == pstr
+                           and k_[1] == name
+                           for t0_, k_ in res.world.launch_log) else [])})
         # left to finish
         if m in tr.live and m in tr.start:
             old = res.world.jobs.get((pstr, name, tr.live[m]))
